@@ -248,6 +248,18 @@ fn main() {
                 sink.sfail(ie, class, &format!("success turned into failure by extra material: {} -> {}", o_base, o_ext), &world.req(&ext, k));
             }
         }
+        // edges never met above: k = 0, nothing valid, the empty list (`Err(NotEnoughSignatures(0, k))` even for k = 0)
+        {
+            let invalid: Vec<Item> = extra.iter().filter(|e| !e.valid).cloned().collect();
+            let mut mixed = invalid.clone();
+            mixed.extend(pool.iter().cloned());
+            rng.shuffle(&mut mixed);
+            for (list, k) in [(pool.clone(), 0u64), (invalid.clone(), 0), (invalid.clone(), 1), (vec![], 0), (vec![], 1), (mixed, 0)] {
+                if !sink.wanted() { sink.skip(); continue; }
+                let (o, _) = outcome(&f, &list, k, &msg);
+                sink.case("edge-k0-or-nothing-valid", &world.req(&list, k), &o);
+            }
+        }
         // witness of the (repaired) findings on this world: sigs ++ sigs, sigs ++ [unregistered slot]
         if w == 0 {
             let base: Vec<Item> = pool.clone();
